@@ -147,6 +147,66 @@ static void runCase(std::istringstream& in) {
   fflush(stdout);
 }
 
+// two pools of the same T:  rq <size0> <size1> <nhandles> <op> ...   ops: a p h (acquire from pool p into slot h), r h, c d s, m d s
+//   -> "rq | s0 .. s(n-1) P p0 .. p(n-1) Q q0 q1 ; | ... ; | E c.. D d.. ;"   s_i as above with resource x of pool p printed as 32*p+x;
+//      p_i = which pool slot i's pool_ points to (-1: no object); q_p = size_approx() of pool p; E/D: pool 0's resources first
+static void runCase2(std::istringstream& in) {
+  size_t size[2], nh;
+  in >> size[0] >> size[1] >> nh;
+  int next0 = 0, next1 = 32;
+  Pool* pool[2];
+  pool[0] = new Pool(size[0], [&next0]() { return Res(next0++); });
+  pool[1] = new Pool(size[1], [&next1]() { return Res(next1++); });
+  std::vector<std::unique_ptr<Handle>> sl(nh);
+  printf("rq");
+  fflush(stdout);
+  std::string op;
+  while (in >> op) {
+    printf(" |");
+    fflush(stdout);
+    if (op == "a") {
+      size_t p, h;
+      in >> p >> h;
+      sl[h].reset(new Handle(pool[p]->acquire()));
+    } else if (op == "r") {
+      size_t h;
+      in >> h;
+      sl[h].reset();
+    } else if (op == "c") {
+      size_t d, s;
+      in >> d >> s;
+      sl[d].reset(new Handle(std::move(*sl[s])));
+    } else if (op == "m") {
+      size_t d, s;
+      in >> d >> s;
+      Handle& dst = *sl[d];
+      Handle& src = *sl[s];
+      dst = std::move(src);
+    } else {
+      printf(" BADOP");
+      break;
+    }
+    for (auto& h : sl) {
+      if (!h) printf(" -2");
+      else if (h->resource_ == nullptr) printf(" -1");
+      else printf(" %d", h->resource_->id);
+    }
+    printf(" P");
+    for (auto& h : sl) printf(" %d", !h ? -1 : (h->pool_ == pool[0] ? 0 : (h->pool_ == pool[1] ? 1 : 9)));
+    printf(" Q %zu %zu ;", pool[0]->pool_.size_approx(), pool[1]->pool_.size_approx());
+    fflush(stdout);
+  }
+  for (auto& h : sl) h.reset();
+  delete pool[0];
+  delete pool[1];
+  printf(" | E");
+  for (size_t p = 0; p < 2; ++p) for (size_t i = 0; i < size[p]; ++i) printf(" %d", g_ctor[32 * p + i]);
+  printf(" D");
+  for (size_t p = 0; p < 2; ++p) for (size_t i = 0; i < size[p]; ++i) printf(" %d", g_dtor[32 * p + i]);
+  printf(" ;");
+  fflush(stdout);
+}
+
 int main() {
   std::string line;
   if (!getenv("H_VERBOSE")) {  // assert() messages on stderr would be merged into the result lines
@@ -166,6 +226,7 @@ int main() {
     std::string kind;
     in >> kind;
     if (kind == "rp") runCase(in);
+    else if (kind == "rq") runCase2(in);
     else printf("BAD");
     alarm(0);
     printf("\n");
